@@ -502,6 +502,12 @@ func ruleSibling(c *Ctx) {
 				}
 			}
 		}
+		if retName == "" {
+			// the read and the guard live in a helper that is handed the store as a function: the guard is the helper's
+			if g, lit := getlineDelegate(c, vm, cc); lit != nil {
+				guards[cl] = g
+			}
+		}
 	}
 	if len(guards) >= 5 {
 		ref := guards["GetlineGlobal"]
@@ -611,4 +617,105 @@ func truncate(s string, n int) string {
 		return s[:n] + "..."
 	}
 	return s
+}
+
+// getlineDelegate: the clause hands a function literal (what to do with the line) to a helper of the interpreter
+// that calls p.getline itself and calls that function with the line read, under a test of getline's result: the
+// guard (with the result's name replaced by RET) and the literal; nil when the clause is not of that form.
+func getlineDelegate(c *Ctx, vm *vmModel, cc *ast.CaseClause) (string, *ast.FuncLit) {
+	info := vm.pkg.TypesInfo
+	var guard string
+	var found *ast.FuncLit
+	ast.Inspect(cc, func(n ast.Node) bool {
+		call, ok := n.(*ast.CallExpr)
+		if !ok || found != nil {
+			return true
+		}
+		f := calleeOf(info, call)
+		if f == nil || f.Pkg() != vm.pkg.Types {
+			return true
+		}
+		litIdx := -1
+		var lit *ast.FuncLit
+		for i, a := range call.Args {
+			if fl, ok := a.(*ast.FuncLit); ok {
+				litIdx, lit = i, fl
+			}
+		}
+		if lit == nil {
+			return true
+		}
+		var hd *ast.FuncDecl
+		for _, d := range c.allFuncDecls("interp") {
+			if info.Defs[d.Name] == types.Object(f) {
+				hd = d
+			}
+		}
+		if hd == nil || hd.Body == nil {
+			return true
+		}
+		// the helper's function parameter
+		var fnParam types.Object
+		i := 0
+		for _, fl := range hd.Type.Params.List {
+			for _, nm := range fl.Names {
+				if i == litIdx {
+					fnParam = info.Defs[nm]
+				}
+				i++
+			}
+		}
+		if fnParam == nil {
+			return true
+		}
+		var retName, lineName string
+		for _, st := range hd.Body.List {
+			if as, ok := st.(*ast.AssignStmt); ok && len(as.Lhs) == 3 && len(as.Rhs) == 1 {
+				if gc, ok := as.Rhs[0].(*ast.CallExpr); ok {
+					if se, ok := gc.Fun.(*ast.SelectorExpr); ok && se.Sel.Name == "getline" {
+						if a, ok := as.Lhs[0].(*ast.Ident); ok {
+							retName = a.Name
+						}
+						if b, ok := as.Lhs[1].(*ast.Ident); ok {
+							lineName = b.Name
+						}
+					}
+				}
+			}
+		}
+		if retName == "" || lineName == "" {
+			return true
+		}
+		for _, st := range hd.Body.List {
+			is, ok := st.(*ast.IfStmt)
+			if !ok || !strings.Contains(types.ExprString(is.Cond), retName) || strings.Contains(types.ExprString(is.Cond), "err") {
+				continue
+			}
+			callsStore := false
+			ast.Inspect(is.Body, func(m ast.Node) bool {
+				if sc, ok := m.(*ast.CallExpr); ok {
+					if id, ok := sc.Fun.(*ast.Ident); ok && info.Uses[id] == fnParam && len(sc.Args) == 1 && isIdent(sc.Args[0], lineName) {
+						callsStore = true
+					}
+				}
+				return true
+			})
+			// the function is called nowhere else in the helper
+			nCalls := 0
+			ast.Inspect(hd.Body, func(m ast.Node) bool {
+				if sc, ok := m.(*ast.CallExpr); ok {
+					if id, ok := sc.Fun.(*ast.Ident); ok && info.Uses[id] == fnParam {
+						nCalls++
+					}
+				}
+				return true
+			})
+			if callsStore && nCalls == 1 {
+				guard = strings.ReplaceAll(types.ExprString(is.Cond), retName, "RET")
+				found = lit
+			}
+		}
+		return true
+	})
+	return guard, found
 }
